@@ -6,4 +6,5 @@ mkdir -p /tmp/mv && rsync -a --delete --exclude .git --exclude evidence --exclud
 cd /tmp/mv/verif-$ID && VERIF_REPO=$WT VERIF_MEM_GB=12 timeout 2400 python3 run.py check $P --jobs 3 > /tmp/mv/$ID.out 2>&1
 echo "exit=$?" >> /tmp/mv/$ID.out
 mkdir -p /verif/seeded/$ID && grep -E "VIOLATION|INCONCLUSIVE|KNOWN|queries|exit=" /tmp/mv/$ID.out > /verif/seeded/$ID/check_result.txt
+[ -d /tmp/mv/verif-$ID/replays ] && rm -rf /verif/seeded/$ID/replays && cp -r /tmp/mv/verif-$ID/replays /verif/seeded/$ID/replays
 rm -rf /tmp/mv/verif-$ID
